@@ -129,6 +129,7 @@ type tour struct {
 	via     []int32
 	epoch   int32
 	maxMis  int
+	perOp   map[string]int
 }
 
 func observe(res, st any) string {
@@ -182,14 +183,15 @@ func (t *tour) step(g int) bool {
 	}
 	t.bad[s][g] = true
 	t.markDone(s, g)
-	if len(t.rep.Mismatches) < t.maxMis {
+	op, _ := grp.stim["op"].(string)
+	t.perOp[op]++
+	if len(t.rep.Mismatches) < t.maxMis && t.perOp[op] <= 3 { // a few per operation, so that every failing operation is reported
 		var exp []any
 		for _, e := range grp.edges {
 			var x any
 			_ = json.Unmarshal([]byte(e.obs), &x)
 			exp = append(exp, x)
 		}
-		op, _ := grp.stim["op"].(string)
 		t.rep.Mismatches = append(t.rep.Mismatches, core.Mismatch{Sut: t.name, Flow: "lts", Op: op, Stimulus: grp.stim,
 			Expected: exp, Observed: core.Ev{"res": res, "st": st}, Cfg: t.cfg, Path: append([]core.Ev(nil), t.path...)})
 	}
@@ -251,7 +253,7 @@ func (t *tour) nextUndone(s int32) int {
 func walkLTS(name string, sut core.SUT, l *wLTS, seed int64, walks, depth, maxMis int) *core.WalkReport {
 	rep := &core.WalkReport{Sut: name, Edges: l.nEdges, States: len(l.names)}
 	n := len(l.names)
-	t := &tour{lts: l, sut: sut, name: name, rep: rep, maxMis: maxMis,
+	t := &tour{lts: l, sut: sut, name: name, rep: rep, maxMis: maxMis, perOp: map[string]int{},
 		covered: make([][][]bool, n), done: make([][]bool, n), bad: make([][]bool, n), tries: make([][]int, n),
 		pending: make([]int, n), cursor: make([]int, n), stamp: make([]int32, n), prev: make([]int32, n), via: make([]int32, n)}
 	for s := range l.groups {
